@@ -177,3 +177,10 @@ Fixpoint model_obs_at_from (u : universe) (en : engine) (k : nat) (ops : list (e
   end.
 Definition model_obs_at (h : hist) (k : nat) : list N :=
   let '(n, t, u, ops) := h in model_obs_at_from u (init_engine n t) k ops.
+
+(* run a list of operations on the model (reachability witnesses) *)
+Fixpoint run_ops (u : universe) (en : engine) (ops : list eop) : engine :=
+  match ops with
+  | [] => en
+  | o :: r => run_ops u (snd (step u en o)) r
+  end.
